@@ -266,7 +266,15 @@ def residual_policy_set(ctx):
 def families(ctx):
     return [('decision', lambda: decision(ctx)), ('may_be_determining', lambda: determining(ctx, 'may_be_determining')),
             ('must_be_determining', lambda: determining(ctx, 'must_be_determining')), ('definitely', lambda: definitely(ctx)),
-            ('residual_policy_set', lambda: residual_policy_set(ctx))]
+            ('residual_policy_set', lambda: residual_policy_set(ctx))] + residual_arms(ctx)
+
+
+def residual_arms(ctx):
+    """the evaluator arms whose handling of unknown operands is non-trivial (best-effort evaluation of the other operand, residual shapes);
+    replayed natively by substituting every unknown and comparing the residual with the original expression"""
+    from . import arms
+    keep = ('And', 'Or', 'eval_if', 'UnaryApp', 'HasAttr', 'get_attr', 'BinaryApp[In]', 'BinaryApp[Eq]')
+    return [(n, f) for n, f in arms.families(ctx) if any(k in n for k in keep)]
 
 
 def run(ctx):
